@@ -173,6 +173,10 @@ class IOBase(Communicator):
         if self.is_connected:
             return True  # no need for intermediate updates
         self._last_connect_attempt = time.time()
+        if self.pollInfo:
+            # the poller tries again one reconnect interval after this attempt,
+            # also when it was made by a caller of communicate in between
+            self.pollInfo.last_main = self._last_connect_attempt
         try:
             self.connectStart()
             if self._last_error:
